@@ -12,7 +12,7 @@
    bijection between models and witnesses, T3 = classical criterion. *)
 From Coq Require Import ZArith List Bool.
 From Cnfgen Require Import Sem Comb Linear IR IRFacts C02Common C02CommonFacts
-  Fam_tseitin Fam_tseitin_Facts Fam_coloring Fam_coloring_Facts Fam_domset Fam_domset_Facts
+  Fam_tseitin Fam_tseitin_Facts Fam_tseitin_Forest Fam_tseitin_Conv Fam_tseitin_Count Fam_coloring Fam_coloring_Facts Fam_domset Fam_domset_Facts
   Fam_iso Fam_iso_Facts Fam_subgraph Fam_subgraph_Facts Fam_c02_Facts.
 Import ListNotations.
 Open Scope Z_scope.
@@ -86,12 +86,62 @@ Theorem C02_tseitin_cnf_unsat_of_odd_component : forall n E ch (S : Z -> bool) a
 Proof. exact tseitin_cnf_unsat_of_odd_component. Qed.
 Print Assumptions C02_tseitin_cnf_unsat_of_odd_component.
 
-(* NOT proved: the converse (every union of components has even charge => satisfiable) and the
-   model count 2^(|E|-|V|+c).  They are kept visible as
-     Fam_tseitin.tseitin_sat_of_even_components_statement
-     Fam_tseitin.tseitin_model_count_statement
-   and are TESTED by enumeration on all graphs with at most 4 (5) vertices in harness/c02.py.
-   The next example only shows the statements are about the right numbers. *)
+(* T3, the converse: if every union of connected components has even total charge the formula is
+   satisfiable (Fam_tseitin.tseitin_sat_of_even_components_statement, spelled out) *)
+Theorem C02_tseitin_sat_of_even_components : forall n E ch, graph_wf n E = true ->
+  (forall S, closed_under_edges S E -> charge_parity ch S n = false) ->
+  exists a, irs_hold a (tseitin_ir n E ch) = true.
+Proof. exact tseitin_sat_of_even_components. Qed.
+Print Assumptions C02_tseitin_sat_of_even_components.
+
+(* T3, both directions *)
+Theorem C02_tseitin_sat_iff : forall n E ch, edges_ok n E = true ->
+  ((exists a, irs_hold a (tseitin_ir n E ch) = true) <->
+   forall S, closed_under_edges S E -> charge_parity ch S n = false).
+Proof. exact tseitin_sat_iff. Qed.
+Print Assumptions C02_tseitin_sat_iff.
+
+(* connectivity is decided by a union-find over the edge list (Fam_tseitin_Forest.uf): two vertices get
+   the same representative iff no union of components separates them *)
+Theorem C02_connected_spec : forall E u w,
+  connected E u w = true <-> forall S, closed_under_edges S E -> S u = S w.
+Proof. exact connected_spec. Qed.
+Print Assumptions C02_connected_spec.
+
+(* T3 with the components enumerated: "the charges of every connected component sum to even",
+   and the same as an executable test *)
+Theorem C02_tseitin_sat_iff_components : forall n E ch, edges_ok n E = true ->
+  ((exists a, irs_hold a (tseitin_ir n E ch) = true) <->
+   forall x, 1 <= x <= n -> charge_parity ch (fun v => connected E v x) n = false).
+Proof. exact tseitin_sat_iff_components. Qed.
+Print Assumptions C02_tseitin_sat_iff_components.
+Theorem C02_tseitin_sat_decide : forall n E ch, edges_ok n E = true ->
+  ((exists a, irs_hold a (tseitin_ir n E ch) = true) <-> tseitin_components_even n E ch = true).
+Proof. exact tseitin_sat_decide. Qed.
+Print Assumptions C02_tseitin_sat_decide.
+
+(* MODEL COUNT as a bijection.  [free_edges E] are the identifiers of the edges outside a spanning forest
+   (those that close a cycle when the edges are inserted one by one); there are |E| - |V| + c of them,
+   c = number of connected components ([uf_components]: the vertices that represent their class).  For a
+   satisfiable formula every choice of values on the free edges extends to a model, and two models that
+   agree on the free edges agree on all the variables: models <-> boolean vectors of length |E|-|V|+c. *)
+Theorem C02_tseitin_models_bijection : forall n E ch, 0 <= n -> edges_ok n E = true ->
+  (exists a, irs_hold a (tseitin_ir n E ch) = true) ->
+  (forall g : Z -> bool, exists a, irs_hold a (tseitin_ir n E ch) = true /\ forall i, In i (free_edges E) -> a i = g i) /\
+  (forall a b, irs_hold a (tseitin_ir n E ch) = true -> irs_hold b (tseitin_ir n E ch) = true ->
+     (forall i, In i (free_edges E) -> a i = b i) -> forall i, 1 <= i <= tseitin_numvar E -> a i = b i) /\
+  NoDup (free_edges E) /\ (forall i, In i (free_edges E) -> 1 <= i <= tseitin_numvar E) /\
+  len (free_edges E) = len E - n + uf_components n E.
+Proof. exact tseitin_models_bijection. Qed.
+Print Assumptions C02_tseitin_models_bijection.
+
+(* ... and the number of models found by brute force over the 2^|E| assignments, for EVERY graph *)
+Theorem C02_tseitin_model_count : forall n E ch, 0 <= n -> edges_ok n E = true ->
+  (exists a, irs_hold a (tseitin_ir n E ch) = true) ->
+  count_models (tseitin_numvar E) (tseitin_ir n E ch) = 2 ^ (len E - n + uf_components n E).
+Proof. exact tseitin_model_count_uf. Qed.
+Print Assumptions C02_tseitin_model_count.
+
 Example C02_tseitin_count_examples :
   (* triangle, charges (1,1,0): 2^(3-3+1) models; default charge: none *)
   count_models 3 (tseitin_ir 3 [(1,2);(1,3);(2,3)] (Some [true; true; false])) = 2 ^ (3 - 3 + num_components 3 [(1,2);(1,3);(2,3)]) /\
